@@ -86,6 +86,7 @@ pub fn run(args: &Args) -> Report {
                     rep.fail("impure", input.clone(), "check() modified the model".into());
                 }
                 rep.tie(format!("chk {}", graph_request(&graph, &covered)), x.join(","));
+                crate::c11full::tie_file(&mut rep, &file, false, &input);
             }
         }
         // 2. every single-reference corruption
@@ -167,6 +168,7 @@ pub fn run(args: &Args) -> Report {
                 let mut xs2 = x.clone();
                 xs2.dedup();
                 rep.tie(format!("chkset {}", graph_request(&graph, &covered)), xs2.join(","));
+                crate::c11full::tie_file(&mut rep, &file, false, &hex(text.as_bytes()));
                 let _ = mi;
             }
         }
@@ -250,6 +252,8 @@ pub fn run(args: &Args) -> Report {
             }
         }
     }
+    // 2d. structural tie: every branch of checker.rs, ordered report list, exact limits (Model/Checker.lean)
+    crate::c11full::run_family(&mut rep, &mut rng, if args.thorough { 6000 } else { 600 });
     // 3. totality on structurally odd files
     let odd = [
         "ASAP2_VERSION 1 71 /begin PROJECT p \"\" /begin MODULE m \"\" /end MODULE /end PROJECT".to_string(),
@@ -271,6 +275,7 @@ pub fn run(args: &Args) -> Report {
                         if f.write_to_string() != before {
                             rep.fail("impure", hex(t.as_bytes()), "check() modified the model".into());
                         }
+                        crate::c11full::tie_file(&mut rep, &f, true, &hex(t.as_bytes()));
                     }
                 }
             }
